@@ -3,8 +3,8 @@ package props
 import (
 	"fmt"
 	"net"
-	"os"
 	"net/http"
+	"os"
 	"strings"
 	"time"
 
